@@ -10,6 +10,7 @@ import (
 	"strconv"
 	"strings"
 	"testing"
+	"time"
 
 	"pgregory.net/rapid"
 
@@ -97,7 +98,35 @@ type prop[C any] struct {
 	Witnesses []C
 }
 
-func safeCheck[C any](p *prop[C], c C, rec *evid.Recorder) (f *Fail) {
+// hangLimit: a single case normally takes micro- to milliseconds; a check that
+// has not returned after this long is a call into xjs that does not terminate
+// (the limit is 5-6 orders of magnitude above the normal cost, and the case is
+// re-tried once with twice the time before it is reported).
+func hangLimit() time.Duration {
+	if s, err := strconv.Atoi(os.Getenv("VERIF_HANG_SECONDS")); err == nil && s > 0 {
+		return time.Duration(s) * time.Second
+	}
+	return 30 * time.Second
+}
+
+func safeCheck[C any](p *prop[C], c C, rec *evid.Recorder) *Fail {
+	for attempt := 0; ; attempt++ {
+		done := make(chan *Fail, 1)
+		go func() { done <- guardedCheck(p, c, rec) }()
+		select {
+		case f := <-done:
+			return f
+		case <-time.After(hangLimit() * time.Duration(1+attempt)):
+			if attempt == 0 {
+				continue
+			}
+			cb, _ := json.Marshal(c)
+			return &Fail{Msg: fmt.Sprintf("the check of this case did not return within %v (second attempt): a call into xjs does not terminate\ncase %s", hangLimit()*2, trunc(string(cb), 1500)), Tags: []string{"hang"}}
+		}
+	}
+}
+
+func guardedCheck[C any](p *prop[C], c C, rec *evid.Recorder) (f *Fail) {
 	defer func() {
 		if r := recover(); r != nil {
 			st := string(debug.Stack())
@@ -158,6 +187,13 @@ func run[C any](t *testing.T, p *prop[C]) {
 			return
 		}
 		writeReplay(p.ID, c, f)
+		if hasTag(f, "hang") {
+			// no shrinking for a non-terminating case: every further attempt would
+			// cost the full watchdog time and leave another spinning goroutine behind
+			fmt.Printf("VIOLATION-CANDIDATE %s: %s tags=%v\n", p.ID, f.Msg, f.Tags)
+			_ = rec.Write(os.Getenv("VERIF_OUT"))
+			os.Exit(3)
+		}
 		fatal("VIOLATION-CANDIDATE %s: %s tags=%v", p.ID, f.Msg, f.Tags)
 	}
 
